@@ -363,7 +363,11 @@ func (d *DBFT[H]) onPrepareRequest(msg ConsensusPayload[H]) {
 		return
 	}
 
-	d.sendPrepareResponse()
+	// Primary can get its own PrepareRequest back from a recovery message
+	// after restart, the request itself is its preparation then.
+	if !d.IsPrimary() {
+		d.sendPrepareResponse()
+	}
 	d.checkPrepare()
 }
 
